@@ -1,6 +1,7 @@
 import GomlVerif.Model.GoCompile
 import GomlVerif.Model.GoFrag
 import GomlVerif.Model.GoTyping
+import GomlVerif.Model.GoFragTyped
 import GomlVerif.Model.Dce
 import GomlVerif.Driver.DecSyntax
 import GomlVerif.Driver.DecGo
@@ -13,7 +14,7 @@ Prints `id<TAB>fresh<TAB>pipe<TAB>fns<TAB>frag` where
   `eliminateDeadVars (goFilePre env file n)` against the real `go_file` output, all items, in order
   (`n = 0` for the fresh run, `n = offset` for the pipeline's own output);
 * `fns`: per ANF function `name=EQ|DIFF|UNSUPPORTED|PRUNED`, comma separated (fresh run);
-* `frag`: per ANF function `name=in` (`in(typed)` when also `stdFn`: the typing half of T2 applies) or
+* `frag`: per ANF function `name=in` (`in(typed)` when also `stdFn` and `typedTablesOK`: the typing half of T2 applies) or
   `name=<reason outside InGoFragment>`;
 * `typed`: per Go function of the real file `name=AGREE|DISAGREE(…)|SKIP` — the total mirror `GoTyping.fnOKT` of
   `Go.check`'s typing rules against `Go.check` itself.
@@ -153,11 +154,12 @@ def fragInfo (env : Env) (file : AFile) (impls : Option (List (String × String 
   let iok := match impls with
     | some t => Goml.GoFrag.implsOK env file GD { fns := file.map AFn.toFn, impls := t }
     | none => false
+  let tt := Goml.GoFrag.typedTablesOK env file 0
   let rec go (st : St) : List AFn → List String
     | [] => []
     | f :: rest =>
       (f.name ++ "=" ++
-        (if closed && G.contains f.name then (if Goml.GoFrag.stdFn f then "in(typed)" else "in")
+        (if closed && G.contains f.name then (if tt && Goml.GoFrag.stdFn env file f then "in(typed)" else "in")
          else match Goml.GoFrag.outsideReason env file 0 GD closedD st f with
           | none => if iok then "in(dyn)" else "in(dyn:impls?)"
           | some r => r)) ::
